@@ -3,7 +3,7 @@
    showing the hypotheses are met by non-trivial values.  Model: Model/BibtexStr.v
    (pybtex/bibtex/utils.py); notions the property refers to: Spec/BibtexStrSpec.v. *)
 From Pybtex Require Import Base.Prelude Base.PyChar Base.PyStr Model.BibtexStr Spec.BibtexStrSpec
-  Proofs.BibtexStr.
+  Proofs.BibtexStr Proofs.BibtexStrCase Proofs.BibtexStrSplit.
 
 (* ---- scanning into (token, brace level) pairs ---- *)
 
@@ -103,6 +103,101 @@ Theorem purify_idem : forall s p, bibtex_purify s = Ok p -> bibtex_purify p = Ok
 Proof. exact purify_idem_lemma. Qed.
 Print Assumptions purify_idem.
 
+(* ---- case change (mode 0 = 'l', 1 = 'u', other = 't') ---- *)
+(* `balanced` is needed: for an unclosed special character the scanner emits a closing
+   brace that is not in the input (change_case_unbalanced_example below) *)
+
+(* letters are preserved up to case, everything else exactly *)
+Theorem change_case_upto_case : forall s mode out, balanced s -> change_case s mode = Ok out ->
+  lower out = lower s.
+Proof. exact change_case_upto_case_lemma. Qed.
+Print Assumptions change_case_upto_case.
+
+Theorem change_case_length : forall s mode out, balanced s -> change_case s mode = Ok out ->
+  length out = length s.
+Proof. exact change_case_length_lemma. Qed.
+Print Assumptions change_case_length.
+
+Theorem change_case_idem : forall s mode out, balanced s -> change_case s mode = Ok out ->
+  change_case out mode = Ok out.
+Proof. exact change_case_idem_lemma. Qed.
+Print Assumptions change_case_idem.
+
+(* the result is the concatenation of per-token images; a token inside braces (level > 0)
+   that is not a special character is unchanged; of a special character (level 1, starts
+   with a backslash) only the space-separated words that are not commands are converted *)
+Theorem change_case_braces : forall s mode out, change_case s mode = Ok out ->
+  exists ts outs, scan s = Ok ts /\ out = concat outs /\
+    Forall2 (fun (t : tok) (o : str) =>
+      (0 < snd t -> is_special_tok (fst t) (snd t) = false -> o = fst t) /\
+      (is_special_tok (fst t) (snd t) = true ->
+         exists st, o = join [c_space] (map (fun w => if bs_head w then w else convert mode st w)
+                                            (split_on [c_space] (fst t))))) ts outs.
+Proof. exact change_case_braces_lemma. Qed.
+Print Assumptions change_case_braces.
+
+(* ---- top-level splitting (any separator matcher m; strip=False, filter_empty=False) ---- *)
+
+(* drops only separators: the pieces, each followed by the text of a separator match,
+   re-assemble the string -- for every string, balanced or not *)
+Theorem split_reassemble : forall m s pieces, split_tex_string_gen m s false false = Ok pieces ->
+  (s = [] /\ pieces = []) \/
+  exists pairs lastp,
+    pieces = map fst pairs ++ [lastp] /\
+    s = flat_map (fun ps => fst ps ++ snd ps) pairs ++ lastp /\
+    Forall (matched m) (map snd pairs).
+Proof. exact split_reassemble_lemma. Qed.
+Print Assumptions split_reassemble.
+
+(* never splits inside braces: on a balanced string every piece is balanced and no
+   separator contains a brace, so every separator lies at brace depth 0.
+   FULL STATEMENT (all strings, clamped depth) is refuted below (finding C12-S1) *)
+Theorem split_never_in_braces_partial : forall m s pieces, balanced s ->
+  split_tex_string_gen m s false false = Ok pieces ->
+  (s = [] /\ pieces = []) \/
+  exists pairs lastp,
+    pieces = map fst pairs ++ [lastp] /\
+    s = flat_map (fun ps => fst ps ++ snd ps) pairs ++ lastp /\
+    Forall balanced pieces /\ Forall (Forall (fun c => is_brace c = false)) (map snd pairs).
+Proof. exact split_top_level_lemma. Qed.
+Print Assumptions split_never_in_braces_partial.
+
+Theorem split_never_in_braces_refuted :
+  exists s pieces p, split_tex_string_gen sep_space s false true = Ok pieces /\
+                     In p pieces /\ cdepth_from 0 p <> 0.
+Proof. exact split_top_level_refuted_lemma. Qed.
+Print Assumptions split_never_in_braces_refuted.
+
+(* split_tex_string never raises and the model's fuel suffices *)
+Theorem split_total : forall m s st fe, exists pieces, split_tex_string_gen m s st fe = Ok pieces.
+Proof. exact split_total_lemma. Qed.
+Print Assumptions split_total.
+
+(* strip / filter_empty are post-processing of the raw pieces: strip per piece, then drop empty ones *)
+Theorem split_strip_filter : forall m s st fe pieces, split_tex_string_gen m s st fe = Ok pieces ->
+  exists raw, split_tex_string_gen m s false false = Ok raw /\
+    pieces = (if fe then filter (fun p => negb (match p with [] => true | _ => false end)) else (fun l => l))
+               (if st then map strip raw else raw).
+Proof. exact split_strip_filter_lemma. Qed.
+Print Assumptions split_strip_filter.
+
+(* ... and strip removes only surrounding whitespace *)
+Theorem strip_only_whitespace : forall s, exists a b, s = a ++ strip s ++ b /\
+  Forall (fun c => is_space c = true) a /\ Forall (fun c => is_space c = true) b.
+Proof. exact strip_spec. Qed.
+Print Assumptions strip_only_whitespace.
+
+(* what the four separators of pybtex match: "," / "-" / " and " in any case /
+   a non-empty run of whitespace, ties and backslashes (of "\ ") *)
+Theorem split_separators :
+  (forall sep, matched sep_comma sep -> sep = [c_comma]) /\
+  (forall sep, matched sep_hyphen sep -> sep = [c_hyphen]) /\
+  (forall sep, matched sep_and sep -> exists b c d, sep = [c_space; b; c; d; c_space] /\
+      to_lower b = 97%N /\ to_lower c = 110%N /\ to_lower d = 100%N) /\
+  (forall sep, matched sep_space sep -> sep <> [] /\ Forall (fun c => spacelike c = true) sep).
+Proof. exact (conj matched_comma (conj matched_hyphen (conj matched_and matched_space))). Qed.
+Print Assumptions split_separators.
+
 (* ---- non-vacuity ---- *)
 Example scan_example :
   balanced (s2l "a{b{\c}}{\'e}f") /\
@@ -129,3 +224,17 @@ Proof. vm_compute. auto. Qed.
 Example purify_example :
   bibtex_purify (s2l "{\noopsort{1973a}}A-b~c, {\'E}!") = Ok (s2l "1973aA b c E").
 Proof. vm_compute. reflexivity. Qed.
+Example change_case_example :
+  balanced (s2l "And {\Now: {BOOO}!!!}") /\
+  change_case (s2l "And {\Now: {BOOO}!!!}") 0 = Ok (s2l "and {\Now: {booo}!!!}") /\
+  change_case (s2l "And Now: BOOO!!!") 2 = Ok (s2l "And now: Booo!!!") /\
+  change_case (s2l "The {\TeX book \noop}") 1 = Ok (s2l "THE {\TeX BOOK \noop}").
+Proof. vm_compute. auto. Qed.
+Example change_case_unbalanced_example : change_case (s2l "{\") 0 = Ok (s2l "{\}").
+Proof. vm_compute. reflexivity. Qed.
+Example split_example :
+  balanced (s2l "a {b c} d and {e and f} AND g") /\
+  split_tex_string_gen sep_and (s2l "a {b c} d and {e and f} AND g") false false =
+    Ok [s2l "a {b c} d"; s2l "{e and f}"; s2l "g"] /\
+  split_tex_string_gen sep_space (s2l "a {b c}~d\ e\~f") false true = Ok [s2l "a"; s2l "{b c}"; s2l "d"; s2l "e\~f"].
+Proof. vm_compute. auto. Qed.
